@@ -167,15 +167,6 @@ Proof.
   - apply cs_piece_mid; assumption.
 Qed.
 
-(* the piece [i, j) in front of the splice reads the same *)
-Lemma username_same dbg u u' a : wf_b u = true -> wf_b u' = true -> has_authority_b u = true ->
-  has_authority_b u' = true -> agree_pre a (ser u) (ser u') -> scheme_end u' = scheme_end u ->
-  username_end u' = username_end u -> username_end u <= a -> username dbg u' = username dbg u.
-Proof.
-  intros W W' Ha Ha' P E1 E2 Hle. rewrite (username_eval dbg u' W'), (username_eval dbg u W).
-  unfold piece. cbn [pidx]. rewrite Ha, Ha', E1, E2. rewrite (pre_piece a _ _ _ _ P) by lia. reflexivity.
-Qed.
-
 Lemma clear_pw dbg u end_ : wf_b u = true -> host_text_ok u -> has_host u = true ->
   byte_eqb (ser u) (username_end u) 58 = true -> username_end u + 2 <= host_start u ->
   byte_eqb (ser u) (host_start u - 1) 64 = true ->
